@@ -14,6 +14,7 @@ CONSTANTS
   MaxSnap = 0
   MaxRestart = 0
   MaxInject = 0
+  MaxBattery = 0
   MaxCfg = 0
   FixedF5 = FALSE
   RecordHist = FALSE
